@@ -271,6 +271,7 @@ func runC09(c *Ctx) {
 	c.rule("A7", "after a context-carrying step has failed, no further mutating effect happens unless the failure was first found not to be a cancellation/timeout, or the context is consulted again", 1)
 	c.rule("A8", "a copy of n bytes: the count n reaches io.CopyN (which reports a short source as EOF), or the number of bytes transferred is compared with n before success is reported", 1)
 	c.rule("A11", "ReadFileContent: the 'too large' refusal is also decided on what was actually read (the size Stat() reports cannot always be trusted)", 1)
+	c.rule("A14", "a return reached only on the failing side of a test of a callee's error (the context gate in particular) does not report success", 100)
 	c.rule("A13", "ReadAtMost: the requested maximum becomes the capacity reserved upfront only where it was found to be at most a constant bound", 1)
 	c.rule("A12", "entry gate, kinds: no error other than that of a closed resource is returned before the context has been consulted", 45)
 	c.rule("A9", "a bounded read: the raw source is read only through io.LimitReader(src, max), except on the side of the branch where max is negative (no bound requested)", 1)
@@ -327,6 +328,17 @@ func runC09(c *Ctx) {
 		}
 	}
 	c.Extra["scope_X"] = nX
+
+	// ---- A14 ----------------------------------------------------------------
+	// "…fails with the 'cancelled' or 'timeout' kind": where a function found the error of a context gate (or of any callee)
+	// non-nil, the return it then takes carries an error — a failing side that returns the function's own, still nil,
+	// error variable (`err` for `subErr`) stops the work and reports success.
+	for _, f := range s.fns {
+		if !(inPkg(fsPkgRel)(f) || inPkg("safeio")(f)) || strings.HasSuffix(c.Fset.Position(f.Pos()).Filename, "lockfile.go") {
+			continue
+		}
+		c.errDropRule("A14", f)
+	}
 
 	// ---- A12 ----------------------------------------------------------------
 	// "fails with the 'cancelled' or 'timeout' kind when its context is already done at the call": no other failure is
@@ -781,6 +793,7 @@ func (s *c09State) sizeRefusal() {
 	}
 	var cmp, post *ssa.If
 	exceeded, postExceeded := 0, 0
+	postAgainstBound := ""
 	isStatSize := func(v ssa.Value) bool {
 		for _, l := range sources(v, deriveOpts{}) {
 			if cl, ok := l.(*ssa.Call); ok && cl.Call.IsInvoke() && cl.Call.Method.Name() == "Size" {
@@ -821,7 +834,17 @@ func (s *c09State) sizeRefusal() {
 		case isStatSize(other):
 			cmp, exceeded = ifi, ts
 		case isReadLen(other):
-			post, postExceeded = ifi, ts
+			// the length read is compared with the maximum itself — not with the (larger) bound the read was given, which
+			// the length can never exceed
+			limit := bo.Y
+			if other == bo.Y {
+				limit = bo.X
+			}
+			if !c09ThroughArithmetic(limit) {
+				post, postExceeded = ifi, ts
+			} else {
+				postAgainstBound = c.ipos(ifi)
+			}
 		}
 	}
 	if cmp == nil {
@@ -880,6 +903,8 @@ func (s *c09State) sizeRefusal() {
 	key11 := fname(f) + "/refusal-on-what-was-read"
 	good11, why11 := true, ""
 	switch {
+	case post == nil && postAgainstBound != "":
+		good11, why11 = false, "the length of what was read is compared ("+postAgainstBound+") with the bound the read was given (the maximum plus something), which it can never exceed — not with the maximum: the refusal on what was read is dead code, and a file whose size Stat() under-reports yields its first bytes and a nil error"
 	case post == nil:
 		good11, why11 = false, "the length of what was read is never compared with limits.GetMaxFileSize(): when Stat() under-reports the size (/proc files, devices, a file being appended to) a source bigger than the limit yields its first bytes and a nil error instead of 'too large'"
 	case resolveValue(read.Call.Args[2]) == resolveValue(maxValueOf(f, isMax)):
@@ -1398,4 +1423,30 @@ func c09BoundsAbove(cond ssa.Value, p *ssa.Parameter, side bool, depth int) bool
 		}
 	}
 	return false
+}
+
+// c09ThroughArithmetic: v is computed with an addition/subtraction (possibly merged with its operand by a phi): max+1, …
+func c09ThroughArithmetic(v ssa.Value) bool {
+	seen := map[ssa.Value]bool{}
+	var walk func(v ssa.Value) bool
+	walk = func(v ssa.Value) bool {
+		if v == nil || seen[v] {
+			return false
+		}
+		seen[v] = true
+		switch x := v.(type) {
+		case *ssa.BinOp:
+			return x.Op == token.ADD || x.Op == token.SUB || x.Op == token.MUL
+		case *ssa.Phi:
+			for _, e := range x.Edges {
+				if walk(e) {
+					return true
+				}
+			}
+		case *ssa.Convert:
+			return walk(x.X)
+		}
+		return false
+	}
+	return walk(v)
 }
